@@ -1,0 +1,10 @@
+//go:build verif
+
+// Contract for lg.ParseLogLevel, needed by the /config handler of nsqadmin (C17). Comment-only file.
+
+package lg
+
+//@ func ParseLogLevel(levelstr string) (LogLevel, error)
+//@   props C17
+//@   ensures[level-or-error] result1 == nil ==> 1 <= result0 && result0 <= 5
+//@   modifies
